@@ -126,7 +126,8 @@ class CloneAbuseRule(BaseLintRule):
         """
         if self._config_override is not None:
             return self._config_override
-        return load_linter_config(context, "clone-abuse", CloneAbuseConfig)
+        key = "clone_abuse" if "clone_abuse" in getattr(context, "metadata", {}) else "clone-abuse"
+        return load_linter_config(context, key, CloneAbuseConfig)
 
     def _build_violations(
         self,
